@@ -1059,3 +1059,12 @@ TABLE["C18"] += [
     N("empty-matrix-shortcut-keeps-the-shape",
       (H, "  double* data = (double*)mxGetData(array);\n  gtsam::Matrix A(m,n);", "  double* data = (double*)mxGetData(array);\n  if (data==NULL) return gtsam::Matrix(m,n);\n  gtsam::Matrix A(m,n);")),
 ]
+TABLE["C16"] += [
+    B("ignore-entries-split-on-blanks-by-the-script", {"Y3"},
+      ("scripts/pybind_wrap.py", "        ignore_classes=args.ignore,\n", "        ignore_classes=[n for item in args.ignore for n in item.split()],\n")),
+    N("ignore-option-guarded-against-none",
+      ("scripts/pybind_wrap.py", "        ignore_classes=args.ignore,\n", "        ignore_classes=args.ignore or [],\n")),
+    B("boost-include-only-in-the-main-file", {"Y2"},
+      (PW, "        if self.use_boost_serialization:\n            includes += \"#include <boost/serialization/export.hpp>\"\n",
+       "        if self.use_boost_serialization and submodules is not None:\n            includes += \"#include <boost/serialization/export.hpp>\"\n")),
+]
